@@ -227,6 +227,11 @@ def selection(repo: Repo, R, m: pt.PdkModel):
             continue
         get = bool(pat.find(f"{t}.get(params.model)", helper.node))
         miss = any(isinstance(n, ast.If) and pat.match("$M is None", n.test) is not None and shared.prov_text(helper.node, n.test.left) == f"{t}.get(params.model)" and au.raises(n.body, noret) for n in au.walk_no_nested(helper.node))
+        if not get:
+            # canonical spelling of the look-up: `if params.model in <table>: return <table>[params.model]` else raise
+            rets_ = shared.returns_of(helper.node)
+            get = bool(rets_) and all(r_.value is not None and shared.prov_text(helper.node, r_.value) == f"{t}[params.model]" and shared.presence(helper.node, r_, t, "params.model") is True for r_ in rets_)
+            miss = shared.raises_under(helper.node, [(f"params.model in {t}", False)], noret)
         R.check(get and miss, rule, f"pdks/{m.name}::{helper.name}", helper.site, f"{m.name}.{helper.name}: looks `params.model` up in `{t}` ({get}) and raises a descriptive error on a miss ({miss})", why="an unknown model name compiles to None or raises KeyError")
 
 
@@ -433,6 +438,10 @@ def small_pdks(repo: Repo, R, prims):
         raise AnalysisError(f"idiom-unknown: ASAP7 module-name template in {F_ASAP7}")
     mm = repo.func(F_ASAP7, "Asap7Walker.mos_module")
     ok = bool(pat.find("_mos_modules.get((params.tp, params.vth), None)", mm.node)) and any(isinstance(n, ast.If) and ast.unparse(n.test) == "mod is None" and au.raises(n.body) for n in au.walk_no_nested(mm.node))
+    if not ok:
+        # canonical spelling of the look-up (membership test, then index)
+        rets_ = shared.returns_of(mm.node)
+        ok = bool(rets_) and all(r_.value is not None and shared.prov_text(mm.node, r_.value) in ("_mos_modules[params.tp, params.vth]", "_mos_modules[(params.tp, params.vth)]") for r_ in rets_) and shared.raises_under(mm.node, [("(params.tp, params.vth) in _mos_modules", False)])
     R.check(ok, "C15.3-selection-well-formed", key_of(mm), mm.site, f"ASAP7: device looked up by (type, threshold); a miss raises: {ok}", why="unknown combination compiles to None")
     sm = repo.func(F_SAMPLE, "SamplePdkWalker.mos_module")
     from .. import fde
